@@ -29,6 +29,7 @@ var userKinds = map[string][]string{
 }
 
 type genCfg struct {
+	catchPct int // probability (percent) that a primitive has Catch; 0 = default 25
 	maxDepth int
 	noCatch  bool
 	noPT     bool
@@ -122,7 +123,11 @@ func genPrim(r *rand.Rand, g genCfg) *Node {
 	if r.Intn(100) < 25 {
 		def = 1 + r.Intn(maxv)
 	}
-	if !g.noCatch && r.Intn(100) < 25 {
+	cpct := 25
+	if g.catchPct > 0 {
+		cpct = g.catchPct
+	}
+	if !g.noCatch && r.Intn(100) < cpct {
 		catch = 5 + r.Intn(2)
 		if ty == "bool" {
 			catch = r.Intn(2)
